@@ -6,10 +6,13 @@
     - [thash], [tnode]: hash / node at a coordinate.
     - L1 [layout_coords_valid] (+ [layout_coords_rows]): the slots below a node exist.
     - L2 [layout_coords_nodup], [tnode_in]: coordinates are pairwise distinct.
-    - L3 [root_node], [root_node_conv], [forest_bit_entry], [roots_nth]: the roots.
-    - L4 [node_cases] (+ [leaf_children_none], [empty_root_children_none], [node_parent]).
-    - L5 [find_pos_coord], [find_pos_none]: positions vs coordinates.
-    - L6 [layout_leaves], [live_leaf_in_layout], [live_leaf_unique].
+    - L3 [root_node], [root_node_conv], [forest_entry], [forest_bit_entry], [roots_nth],
+      [roots_nth_bit], [roots_length]: the roots.
+    - L4 [node_cases] (+ [leaf_children_none], [empty_root_children_none], [node_parent],
+      [node_sibling], [node_root], [layout_node_tree]).
+    - L5 [find_pos_coord], [find_pos_none], [find_pos_layout]: positions vs coordinates.
+    - L6 [layout_leaves], [live_leaf_in_layout], [layout_leaf_live], [live_leaf_unique],
+      [find_leaf_live].
 
     Everything is axiom-free and holds for every [H], [HO]; no bound on the leaf count is needed. *)
 From Utreexo Require Import Spec.Forest Proofs.StumpAdd Proofs.UtilsGeom Proofs.UtilsGeom2.
@@ -513,7 +516,7 @@ Section LayoutStruct.
   Proof.
     intros Hlen Hlo Hin. destruct (trees_entry k lo s k' lo' t Hlen Hin) as (Hk' & (q & Hq) & _).
     exists (q0 * p2 (S k - k') + 2 * q)%N.
-    rewrite Hq, Hlo, N.mul_add_distr_r, <- N.mul_assoc, <- p2_split, p2_S by lia. lia.
+    rewrite Hq, Hlo, (p2_split (S k) k'), (p2_S k') by lia. ring.
   Qed.
 
   (** * Part 5: the placed nodes of [trees] *)
@@ -533,7 +536,7 @@ Section LayoutStruct.
   Lemma place_entry_range k lo t q x : lo = (q * p2 k)%N -> In x (place_entry HO (k, lo, t)) ->
     nrow x <= k /\ (lo <= nlo x)%N /\ (nhi x <= lo + p2 k)%N.
   Proof.
-    intros Hlo Hin. rewrite (place_entry_eq k t Hlo) in Hin. destruct t as [c|].
+    intros Hlo Hin. rewrite (place_entry_eq k lo t q Hlo) in Hin. destruct t as [c|].
     - apply place_tree_range in Hin. unfold inrange in Hin. lia.
     - destruct Hin as [<-|[]]. unfold nlo, nhi. cbn [nrow noff]. lia.
   Qed.
@@ -550,9 +553,9 @@ Section LayoutStruct.
     (lo <= nlo x)%N /\ (nhi x <= lo + N.of_nat (length s))%N.
   Proof.
     intros Hlen Hlo Hin. apply in_flat_map in Hin as ([[k' lo'] t] & He & Hx).
-    destruct (trees_entry_aligned k lo s k' lo' t Hlen Hlo He) as [q Hq].
+    destruct (trees_entry_aligned k lo s k' lo' t q0 Hlen Hlo He) as [q Hq].
     destruct (trees_entry k lo s k' lo' t Hlen He) as (Hk' & (q1 & Hq1) & H1 & H2 & _).
-    destruct (place_entry_range k' t x Hq Hx) as (_ & H3 & H4). lia.
+    destruct (place_entry_range k' lo' t q x Hq Hx) as (_ & H3 & H4). lia.
   Qed.
 
   Lemma trees_nodup k : forall lo s q0,
@@ -564,19 +567,811 @@ Section LayoutStruct.
       cbn [flat_map]. rewrite app_nil_r. apply place_entry_nodup.
     - rewrite trees_S. pose proof (Nat.pow_succ_r' 2 (S k)) as Hpow.
       pose proof (p2_nat (S k)) as HpN. pose proof (p2_S (S k)) as HpS.
-      remember (2 ^ S k) as sz eqn:Hsz.
+      rewrite Hpow in Hlen. remember (2 ^ S k) as sz eqn:Hsz.
       destruct (Nat.leb_spec sz (length s)) as [Hge|Hlt].
       + cbn [flat_map]. rewrite map_app.
         assert (Hlo1 : (lo + N.of_nat sz = (2 * q0 + 1) * p2 (S k))%N) by lia.
-        assert (Hlen1 : length (skipn sz s) < 2 ^ S k) by (rewrite skipn_length; lia).
+        assert (Hlen1 : length (skipn sz s) < sz) by (rewrite skipn_length; lia).
+        assert (Hlen1' : length (skipn sz s) < 2 ^ S k) by (rewrite <- Hsz; exact Hlen1).
         apply NoDup_app_intro; [apply place_entry_nodup|exact (IH _ _ _ Hlen1 Hlo1)|].
         intros cxy Hx Hy.
         apply in_map_iff in Hx as (x & Ex & Hx). apply in_map_iff in Hy as (y & Ey & Hy).
         assert (Hlo0 : lo = (2 * q0 * p2 (S k))%N) by lia.
-        destruct (place_entry_range (S k) _ x Hlo0 Hx) as (_ & _ & Hx').
-        destruct (trees_nodes_range k _ _ y Hlen1 Hlo1 Hy) as (Hy' & _).
+        destruct (place_entry_range (S k) lo _ _ x Hlo0 Hx) as (_ & _ & Hx').
+        destruct (trees_nodes_range k _ _ _ y Hlen1' Hlo1 Hy) as (Hy' & _).
         apply (coord_sep x y (lo + p2 (S k))%N); [exact Hx'|lia|congruence].
       + apply (IH lo s (2 * q0)%N); [lia|lia].
   Qed.
 
+  (** * Part 6: the entries of the forest of a state *)
+
+  Lemma forest_len (s : slots H) : length s < 2 ^ S (Nat.log2 (length s)).
+  Proof.
+    destruct (Nat.eq_dec (length s) 0) as [E|E].
+    - rewrite E. change (Nat.log2 0) with 0. change (2 ^ 1) with 2. lia.
+    - apply Nat.log2_spec. lia.
+  Qed.
+
+  Lemma p2_S' k : p2 (S k) = (2 ^ (N.of_nat k + 1))%N.
+  Proof. unfold p2. rewrite Nat2N.inj_succ, N.add_1_r. reflexivity. Qed.
+
+  (** everything about one entry of the forest ([p2 k = 2 ^ N.of_nat k]) *)
+  Lemma forest_entry s k lo t : In (k, lo, t) (forest HO s) ->
+    N.testbit (N.of_nat (length s)) (N.of_nat k) = true /\
+    lo = (N.of_nat (length s) / p2 (S k) * p2 (S k))%N /\
+    lo = (2 * (N.of_nat (length s) / p2 (S k)) * p2 k)%N /\
+    (lo + p2 k <= N.of_nat (length s))%N /\ (N.of_nat (length s) < lo + p2 (S k))%N /\
+    t = compress HO k (skipn (N.to_nat lo) s).
+  Proof.
+    intros Hin. unfold forest in Hin.
+    destruct (trees_entry _ _ _ _ _ _ (forest_len s) Hin) as (_ & (q & Hq) & H1 & H2 & Ht).
+    rewrite N.add_0_l in *. rewrite N.sub_0_r in Ht. subst lo.
+    destruct (seg_bit (N.of_nat (length s)) q k H1 H2) as [Hb Hqq].
+    split; [exact Hb|]. rewrite <- Hqq. split; [reflexivity|]. split; [rewrite p2_S; lia|].
+    split; [exact H1|]. split; [exact H2|exact Ht].
+  Qed.
+
+  Lemma forest_entry_unique s k lo t lo' t' :
+    In (k, lo, t) (forest HO s) -> In (k, lo', t') (forest HO s) -> lo = lo' /\ t = t'.
+  Proof.
+    intros H1 H2. apply forest_entry in H1 as (_ & E1 & _ & _ & _ & T1).
+    apply forest_entry in H2 as (_ & E2 & _ & _ & _ & T2).
+    assert (E : lo = lo') by congruence. split; [exact E|]. rewrite T1, T2, E. reflexivity.
+  Qed.
+
+  (** trees of different rows occupy disjoint slot ranges, the higher tree first *)
+  Lemma forest_entries_disjoint s k1 lo1 t1 k2 lo2 t2 :
+    In (k1, lo1, t1) (forest HO s) -> In (k2, lo2, t2) (forest HO s) -> k2 < k1 ->
+    (lo1 + p2 k1 <= lo2)%N.
+  Proof.
+    intros H1 H2 Hk.
+    apply forest_entry in H1 as (_ & _ & E1 & L1 & _ & _).
+    apply forest_entry in H2 as (_ & E2 & _ & _ & U2 & _).
+    set (n := N.of_nat (length s)) in *.
+    set (a := (2 * (n / p2 (S k1)) + 1)%N) in *.
+    assert (Ea : (lo1 + p2 k1 = a * p2 (k1 - S k2) * p2 (S k2))%N).
+    { rewrite <- N.mul_assoc, <- p2_split by lia. unfold a. lia. }
+    set (q2 := (n / p2 (S k2))%N) in *. pose proof (p2_pos (S k2)) as Hp.
+    assert (Hlt : (a * p2 (k1 - S k2) * p2 (S k2) < (q2 + 1) * p2 (S k2))%N) by lia.
+    apply N.mul_lt_mono_pos_r in Hlt; [|exact Hp].
+    assert (Hle : (a * p2 (k1 - S k2) * p2 (S k2) <= q2 * p2 (S k2))%N)
+      by (apply N.mul_le_mono_r; lia).
+    lia.
+  Qed.
+
+  (** every set bit of the leaf count has its tree *)
+  Lemma forest_bit_entry s k :
+    N.testbit (N.of_nat (length s)) (N.of_nat k) = true ->
+    exists lo t,
+      nth_error (forest HO s) (N.to_nat (popcount (N.of_nat (length s) / p2 (S k))))
+      = Some (k, lo, t).
+  Proof.
+    intros Hb. unfold forest. apply trees_nth; [apply forest_len| |exact Hb].
+    destruct (Nat.le_gt_cases k (Nat.log2 (length s))) as [Hle|Hgt]; [exact Hle|exfalso].
+    pose proof (forest_len s) as Hlen.
+    rewrite (testbit_small (N.of_nat (length s)) (N.of_nat (S (Nat.log2 (length s))))) in Hb;
+      [discriminate| |lia].
+    fold (p2 (S (Nat.log2 (length s)))). rewrite <- p2_nat. lia.
+  Qed.
+
+  Lemma layout_entry s x : In x (layout HO s) ->
+    exists k lo t, In (k, lo, t) (forest HO s) /\ In x (place_entry HO (k, lo, t)).
+  Proof.
+    intros Hin. unfold layout in Hin. apply in_flat_map in Hin as ([[k lo] t] & He & Hx).
+    exists k, lo, t. split; assumption.
+  Qed.
+
+  Lemma entry_layout s e x : In e (forest HO s) -> In x (place_entry HO e) -> In x (layout HO s).
+  Proof. intros He Hx. unfold layout. apply in_flat_map. exists e. split; assumption. Qed.
+
+  (** the nodes of an entry of the forest lie inside its slot range *)
+  Lemma forest_entry_range s k lo t x :
+    In (k, lo, t) (forest HO s) -> In x (place_entry HO (k, lo, t)) ->
+    nrow x <= k /\ (lo <= nlo x)%N /\ (nhi x <= lo + p2 k)%N.
+  Proof.
+    intros He Hx. apply forest_entry in He as (_ & _ & E & _).
+    exact (place_entry_range k lo t _ x E Hx).
+  Qed.
+
+  (** two nodes with overlapping slot ranges belong to the same tree *)
+  Lemma layout_same_entry s k1 lo1 t1 k2 lo2 t2 x y :
+    In (k1, lo1, t1) (forest HO s) -> In (k2, lo2, t2) (forest HO s) ->
+    In x (place_entry HO (k1, lo1, t1)) -> In y (place_entry HO (k2, lo2, t2)) ->
+    (nlo x <= nlo y)%N -> (nlo y < nhi x)%N -> k1 = k2 /\ lo1 = lo2 /\ t1 = t2.
+  Proof.
+    intros H1 H2 Hx Hy Hlo Hhi.
+    destruct (forest_entry_range _ _ _ _ _ H1 Hx) as (_ & X1 & X2).
+    destruct (forest_entry_range _ _ _ _ _ H2 Hy) as (_ & Y1 & Y2).
+    pose proof (nlo_lt_nhi y) as Hy'.
+    destruct (Nat.lt_trichotomy k1 k2) as [Hlt|[Heq|Hgt]].
+    - pose proof (forest_entries_disjoint _ _ _ _ _ _ _ H2 H1 Hlt). lia.
+    - subst k2. split; [reflexivity|]. exact (forest_entry_unique _ _ _ _ _ _ H1 H2).
+    - pose proof (forest_entries_disjoint _ _ _ _ _ _ _ H1 H2 Hgt). lia.
+  Qed.
+
+  (** * L1: coordinates are valid *)
+
+  Theorem layout_coords_valid s x : In x (layout HO s) ->
+    ((noff x + 1) * 2 ^ N.of_nat (nrow x) <= N.of_nat (length s))%N.
+  Proof.
+    intros Hin. unfold layout, forest in Hin.
+    destruct (trees_nodes_range _ 0%N s 0%N x (forest_len s) eq_refl Hin) as [_ Hhi].
+    exact Hhi.
+  Qed.
+
+  (** ... in any height [K] with [n <= 2^K] *)
+  Theorem layout_coords_rows s x K : In x (layout HO s) ->
+    (N.of_nat (length s) <= 2 ^ N.of_nat K)%N ->
+    nrow x <= K /\ (noff x < 2 ^ (N.of_nat K - N.of_nat (nrow x)))%N.
+  Proof.
+    intros Hin HK. pose proof (layout_coords_valid s x Hin) as Hv.
+    fold (p2 (nrow x)) in Hv. fold (p2 K) in HK.
+    pose proof (p2_pos (nrow x)) as Hp.
+    assert (Hge : (p2 (nrow x) <= (noff x + 1) * p2 (nrow x))%N) by nia.
+    assert (Hr : nrow x <= K).
+    { destruct (Nat.le_gt_cases (nrow x) K) as [Hle|Hgt]; [exact Hle|exfalso].
+      pose proof (p2_le (S K) (nrow x) Hgt) as Hle. rewrite p2_S in Hle.
+      pose proof (p2_pos K). lia. }
+    split; [exact Hr|].
+    rewrite <- Nat2N.inj_sub. fold (p2 (K - nrow x)).
+    rewrite (p2_split K (nrow x) Hr) in HK.
+    assert (Hle : ((noff x + 1) * p2 (nrow x) <= p2 (K - nrow x) * p2 (nrow x))%N) by lia.
+    apply N.mul_le_mono_pos_r in Hle; [lia|exact Hp].
+  Qed.
+
+  Lemma rows_of_upper n : (n <= 2 ^ N.of_nat (rows_of n))%N.
+  Proof.
+    unfold rows_of. rewrite N2Nat.id. exact (TreeRows_upper n).
+  Qed.
+
+  Corollary layout_coords_rows_of s x : In x (layout HO s) ->
+    nrow x <= rows_of (num_leaves s) /\
+    (noff x < 2 ^ (N.of_nat (rows_of (num_leaves s)) - N.of_nat (nrow x)))%N.
+  Proof. intros Hin. apply (layout_coords_rows s x _ Hin), rows_of_upper. Qed.
+
+  (** * L2: coordinates are pairwise distinct *)
+
+  Theorem layout_coords_nodup s :
+    NoDup (map (fun x : node H => (nrow x, noff x)) (layout HO s)).
+  Proof. exact (trees_nodup _ 0%N s 0%N (forest_len s) eq_refl). Qed.
+
+  Theorem tnode_in s x : In x (layout HO s) -> tnode s (nrow x) (noff x) = Some x.
+  Proof. intros Hin. apply find_coord_in; [apply layout_coords_nodup|exact Hin]. Qed.
+
+  Theorem tnode_some s r o x : tnode s r o = Some x ->
+    In x (layout HO s) /\ nrow x = r /\ noff x = o.
+  Proof. apply find_coord_some. Qed.
+
+  Theorem tnode_iff s r o x :
+    tnode s r o = Some x <-> In x (layout HO s) /\ nrow x = r /\ noff x = o.
+  Proof.
+    split; [apply tnode_some|]. intros (Hin & <- & <-). apply tnode_in, Hin.
+  Qed.
+
+  Theorem tnode_none s r o :
+    tnode s r o = None <-> (forall x, In x (layout HO s) -> (nrow x, noff x) <> (r, o)).
+  Proof. apply find_coord_none. Qed.
+
+  Lemma thash_tnode s r o : thash s r o = option_map (@nhash H) (tnode s r o).
+  Proof. reflexivity. Qed.
+
+  (** * L3: the roots *)
+
+  Theorem root_node s k lo t : In (k, lo, t) (forest HO s) ->
+    N.testbit (N.of_nat (length s)) (N.of_nat k) = true /\
+    lo = (N.of_nat (length s) / 2 ^ (N.of_nat k + 1) * 2 ^ (N.of_nat k + 1))%N /\
+    (lo / 2 ^ N.of_nat k = 2 * (N.of_nat (length s) / 2 ^ (N.of_nat k + 1)))%N /\
+    exists x, tnode s k (lo / 2 ^ N.of_nat k) = Some x /\
+              nroot x = true /\ nhash x = root_hash HO t /\ ntree x = k.
+  Proof.
+    intros Hin. pose proof (forest_entry _ _ _ _ Hin) as (Hb & E1 & E2 & _).
+    rewrite <- p2_S'. split; [exact Hb|]. split; [exact E1|].
+    assert (Ediv : (lo / 2 ^ N.of_nat k = 2 * (N.of_nat (length s) / p2 (S k)))%N).
+    { fold (p2 k). rewrite E2 at 1. apply N.div_mul. pose proof (p2_pos k). lia. }
+    split; [exact Ediv|].
+    set (o := (lo / 2 ^ N.of_nat k)%N) in *.
+    assert (Hx : exists x, In x (place_entry HO (k, lo, t)) /\ nrow x = k /\ noff x = o /\
+                           nroot x = true /\ nhash x = root_hash HO t /\ ntree x = k).
+    { cbn [place_entry]. fold o. destruct t as [c|].
+      - exists (head_node c k o true k). split; [apply place_tree_head_in|]. cbn. auto.
+      - eexists. split; [left; reflexivity|]. cbn. auto. }
+    destruct Hx as (x & Hx & Hr & Ho & Hroot & Hh & Ht).
+    exists x. split; [|auto]. rewrite <- Hr, <- Ho. apply tnode_in.
+    exact (entry_layout s _ x Hin Hx).
+  Qed.
+
+  (** conversely, a node flagged as root is the root of an entry of the forest *)
+  Theorem root_node_conv s x : In x (layout HO s) -> nroot x = true ->
+    exists k lo t, In (k, lo, t) (forest HO s) /\
+      nrow x = k /\ noff x = (lo / 2 ^ N.of_nat k)%N /\ nhash x = root_hash HO t /\ ntree x = k.
+  Proof.
+    intros Hin Hroot. destruct (layout_entry s x Hin) as (k & lo & t & He & Hx).
+    exists k, lo, t. split; [exact He|]. cbn [place_entry] in Hx. destruct t as [c|].
+    - destruct (place_tree_tail _ _ _ _ _ _ Hx) as [->|[_ Hn]]; [cbn; auto|congruence].
+    - destruct Hx as [<-|[]]. cbn. auto.
+  Qed.
+
+  (** the tree of row [k] is entry number [popcount (n >> (k+1))] of the forest *)
+  Theorem roots_nth s k lo t : In (k, lo, t) (forest HO s) ->
+    nth_error (roots HO s)
+      (N.to_nat (popcount (N.shiftr (N.of_nat (length s)) (N.of_nat k + 1))))
+    = Some (root_hash HO t).
+  Proof.
+    intros Hin. pose proof (forest_entry _ _ _ _ Hin) as (Hb & _).
+    destruct (forest_bit_entry s k Hb) as (lo' & t' & Hnth).
+    rewrite N.shiftr_div_pow2, <- p2_S'.
+    destruct (forest_entry_unique _ _ _ _ _ _ Hin (nth_error_In _ _ Hnth)) as [<- <-].
+    unfold roots. apply (map_nth_error (fun e => root_hash HO (snd e)) _ _ Hnth).
+  Qed.
+
+  (** a set bit gives a root *)
+  Theorem roots_nth_bit s k : N.testbit (N.of_nat (length s)) (N.of_nat k) = true ->
+    exists lo t, In (k, lo, t) (forest HO s) /\
+      nth_error (roots HO s)
+        (N.to_nat (popcount (N.shiftr (N.of_nat (length s)) (N.of_nat k + 1))))
+      = Some (root_hash HO t).
+  Proof.
+    intros Hb. destruct (forest_bit_entry s k Hb) as (lo & t & Hnth).
+    apply nth_error_In in Hnth. exists lo, t. split; [exact Hnth|].
+    apply (roots_nth s k lo t Hnth).
+  Qed.
+
+  (** * L4: the cases of a node *)
+
+  Lemma in_firstn (A : Type) (a : A) n l : In a (firstn n l) -> In a l.
+  Proof. intros Hin. rewrite <- (firstn_skipn n l). apply in_or_app. left. exact Hin. Qed.
+  Lemma in_skipn (A : Type) (a : A) n l : In a (skipn n l) -> In a l.
+  Proof. intros Hin. rewrite <- (firstn_skipn n l). apply in_or_app. right. exact Hin. Qed.
+
+  (** the two child coordinates of [(r, o)] hold no node *)
+  Definition no_children (s : slots H) (r : nat) (o : N) : Prop :=
+    forall r', r = S r' -> tnode s r' (2 * o) = None /\ tnode s r' (2 * o + 1) = None.
+
+  Inductive node_case (s : slots H) (r : nat) (o : N) (x : node H) : Prop :=
+  | NC_inner (r' : nat) (xl xr : node H) :
+      nleaf x = false -> r = S r' ->
+      tnode s r' (2 * o) = Some xl -> tnode s r' (2 * o + 1) = Some xr ->
+      nhash x = hash2 (nhash xl) (nhash xr) ->
+      ntree xl = ntree x -> ntree xr = ntree x -> nroot xl = false -> nroot xr = false ->
+      node_case s r o x
+  | NC_leaf :
+      nleaf x = true -> In (Some (nhash x)) s -> no_children s r o ->
+      node_case s r o x
+  | NC_empty :
+      nroot x = true -> nleaf x = false -> nhash x = empty -> ntree x = r ->
+      live (firstn (2 ^ r) (skipn (N.to_nat (o * 2 ^ N.of_nat r)) s)) = [] ->
+      no_children s r o ->
+      node_case s r o x.
+
+  (** a node below which its own tree has nothing has no children in the layout *)
+  Lemma no_children_of s k lo t x :
+    In (k, lo, t) (forest HO s) -> In x (place_entry HO (k, lo, t)) ->
+    (forall y, In y (place_entry HO (k, lo, t)) ->
+               nrow y < nrow x -> (nlo x <= nlo y)%N -> (nlo y < nhi x)%N -> False) ->
+    no_children s (nrow x) (noff x).
+  Proof.
+    intros He Hx Hbot r' Er.
+    assert (Hgen : forall o', (o' = 2 * noff x \/ o' = 2 * noff x + 1)%N -> tnode s r' o' = None).
+    { intros o' Ho'. apply tnode_none. intros y Hy Ec. injection Ec as Ery Eoy.
+      destruct (layout_entry s y Hy) as (k2 & lo2 & t2 & He2 & Hy2).
+      pose proof (p2_pos r') as Hp.
+      assert (Hlo : (nlo x <= nlo y)%N) by (unfold nlo; rewrite Ery, Eoy, Er, p2_S; lia).
+      assert (Hhi : (nlo y < nhi x)%N) by (unfold nlo, nhi; rewrite Ery, Eoy, Er, p2_S; lia).
+      destruct (layout_same_entry s _ _ _ _ _ _ x y He He2 Hx Hy2 Hlo Hhi) as (<- & <- & <-).
+      apply (Hbot y Hy2); [lia|exact Hlo|exact Hhi]. }
+    split; apply Hgen; [left|right]; reflexivity.
+  Qed.
+
+  Theorem node_cases s r o x : tnode s r o = Some x -> node_case s r o x.
+  Proof.
+    intros Hx. apply tnode_some in Hx as (Hin & <- & <-).
+    destruct (layout_entry s x Hin) as (k & lo & t & He & Hxe).
+    pose proof (forest_entry _ _ _ _ He) as (Hb & E1 & E2 & L1 & U1 & Ht).
+    pose proof (place_entry_eq k lo t _ E2) as Hpe.
+    set (q := (2 * (N.of_nat (length s) / p2 (S k)))%N) in *.
+    destruct t as [c|].
+    - symmetry in Ht. destruct (compress_wf _ _ _ Ht) as [Hwf Hht].
+      pose proof Hxe as Hxe'. rewrite Hpe in Hxe'.
+      destruct (place_tree_cases c k q true k x Hwf Hht Hxe')
+        as [[Hlf Hh]|[Hlf (r' & xl & xr & Er & Hxl & Hxr & Cl & Cr & Hh)]].
+      + apply NC_leaf; [exact Hlf| |].
+        * assert (Hl : In (nhash x) (oleaves (compress HO k (skipn (N.to_nat lo) s))))
+            by (rewrite Ht; exact Hh).
+          rewrite compress_leaves in Hl. apply live_in in Hl.
+          exact (in_skipn _ _ _ _ (in_firstn _ _ _ _ Hl)).
+        * apply (no_children_of s k lo (Some c) x He Hxe). rewrite Hpe.
+          intros y Hy Hrow Hlo Hhi.
+          exact (place_tree_leaf_bottom c k q true k x y Hxe' Hy Hlf Hrow Hlo Hhi).
+      + pose proof (f_equal fst Cl) as Clr. pose proof (f_equal snd Cl) as Clo.
+        pose proof (f_equal fst Cr) as Crr. pose proof (f_equal snd Cr) as Cro.
+        cbn [fst snd coord] in Clr, Clo, Crr, Cro.
+        assert (Hnr : forall y, In y (place_tree c k q true k) -> nrow y = r' -> nroot y = false).
+        { intros y Hy Hyr. destruct (place_tree_tail _ _ _ _ _ _ Hy) as [->|[_ Hn]]; [|exact Hn].
+          cbn [head_node nrow] in Hyr. apply place_tree_range in Hxe' as (Hle & _). lia. }
+        apply (NC_inner s (nrow x) (noff x) x r' xl xr); try assumption.
+        * rewrite <- Clr, <- Clo. apply tnode_in. apply (entry_layout s _ xl He).
+          rewrite Hpe. exact Hxl.
+        * rewrite <- Crr, <- Cro. apply tnode_in. apply (entry_layout s _ xr He).
+          rewrite Hpe. exact Hxr.
+        * rewrite (place_tree_ntree _ _ _ _ _ _ Hxl), (place_tree_ntree _ _ _ _ _ _ Hxe').
+          reflexivity.
+        * rewrite (place_tree_ntree _ _ _ _ _ _ Hxr), (place_tree_ntree _ _ _ _ _ _ Hxe').
+          reflexivity.
+        * exact (Hnr xl Hxl Clr).
+        * exact (Hnr xr Hxr Crr).
+    - pose proof Hxe as Hxe'. rewrite Hpe in Hxe'. destruct Hxe' as [Ex|[]].
+      apply NC_empty; try (rewrite <- Ex; reflexivity).
+      + apply compress_none. rewrite <- Ex. cbn [nrow noff]. fold (p2 k).
+        rewrite <- E2. symmetry. exact Ht.
+      + apply (no_children_of s k lo None x He Hxe). rewrite Hpe.
+        intros y [Ey|[]] Hrow _ _. rewrite <- Ey, <- Ex in Hrow. cbn [nrow] in Hrow. lia.
+  Qed.
+
+  (** with a node hash that is never the empty hash, the inner case is visible in the hash *)
+  Lemma node_case_inner_nonempty (xl xr x : node H) :
+    (forall a b, hash2 a b <> empty) -> nhash x = hash2 (nhash xl) (nhash xr) -> nhash x <> empty.
+  Proof. intros Hh2 E. rewrite E. apply Hh2. Qed.
+
+  (** children coordinates of a leaf / of an empty root hold no node *)
+  Theorem leaf_children_none s r' o x :
+    tnode s (S r') o = Some x -> nleaf x = true ->
+    tnode s r' (2 * o) = None /\ tnode s r' (2 * o + 1) = None.
+  Proof.
+    intros Hx Hlf. destruct (node_cases s _ _ x Hx) as [? ? ? Hn|_ _ Hc|_ Hn]; try congruence.
+    exact (Hc r' eq_refl).
+  Qed.
+
+  Theorem empty_root_children_none s r' o x :
+    tnode s (S r') o = Some x -> nleaf x = false -> nhash x = empty ->
+    (forall a b, hash2 a b <> empty) ->
+    tnode s r' (2 * o) = None /\ tnode s r' (2 * o + 1) = None.
+  Proof.
+    intros Hx Hlf He Hh2.
+    destruct (node_cases s _ _ x Hx) as [? ? ? _ _ _ _ Hh|Hn|_ _ _ _ _ Hc].
+    - exfalso. rewrite Hh in He. exact (Hh2 _ _ He).
+    - congruence.
+    - exact (Hc r' eq_refl).
+  Qed.
+
+  (** every node that is not a root has its (inner) parent one row up at offset [o / 2] *)
+  Theorem node_parent s r o x : tnode s r o = Some x -> nroot x = false ->
+    exists p, tnode s (S r) (o / 2) = Some p /\ nleaf p = false /\ ntree p = ntree x /\
+              S r <= ntree x.
+  Proof.
+    intros Hx Hnr. apply tnode_some in Hx as (Hin & <- & <-).
+    destruct (layout_entry s x Hin) as (k & lo & t & He & Hxe).
+    pose proof (forest_entry _ _ _ _ He) as (_ & _ & E2 & _).
+    pose proof (place_entry_eq k lo t _ E2) as Hpe. pose proof Hxe as Hxe'. rewrite Hpe in Hxe'.
+    destruct t as [c|].
+    - destruct (place_tree_parent _ _ _ _ _ _ Hxe') as [Ex|(p & Hp & Hpl & Hpr & Hpo)].
+      + rewrite Ex in Hnr. discriminate Hnr.
+      + exists p. rewrite <- Hpr, <- Hpo. split.
+        * apply tnode_in. apply (entry_layout s _ p He). rewrite Hpe. exact Hp.
+        * split; [exact Hpl|].
+          rewrite (place_tree_ntree _ _ _ _ _ _ Hp), (place_tree_ntree _ _ _ _ _ _ Hxe').
+          split; [reflexivity|]. apply place_tree_range in Hp as (Hle & _). lia.
+    - destruct Hxe' as [Ex|[]]. rewrite <- Ex in Hnr. discriminate Hnr.
+  Qed.
+
+  (** ... and its sibling next to it; the parent hashes the two in offset order *)
+  Theorem node_sibling s r o x : tnode s r o = Some x -> nroot x = false ->
+    exists p sib,
+      tnode s (S r) (o / 2) = Some p /\ tnode s r (N.lxor o 1) = Some sib /\
+      nleaf p = false /\ ntree p = ntree x /\ ntree sib = ntree x /\ nroot sib = false /\
+      nhash p = if N.even o then hash2 (nhash x) (nhash sib) else hash2 (nhash sib) (nhash x).
+  Proof.
+    intros Hx Hnr. destruct (node_parent s r o x Hx Hnr) as (p & Hp & Hpl & Hpt & _).
+    exists p. pose proof (N.div_mod' o 2) as Hdm. pose proof (mod2_even o) as Hm.
+    rewrite lxor_1.
+    destruct (node_cases s _ _ p Hp)
+      as [r' xl xr _ Er Hxl Hxr Hh Htl Htr Hrl Hrr|Hn|_ _ _ _ _ Hc]; [|congruence|].
+    - injection Er as <-. destruct (N.even o).
+      + replace (2 * (o / 2))%N with o in * by lia.
+        assert (xl = x) by congruence. subst xl.
+        exists xr. repeat split; try assumption; congruence.
+      + replace (2 * (o / 2) + 1)%N with o in * by lia.
+        assert (xr = x) by congruence. subst xr.
+        exists xl. replace (o - 1)%N with (2 * (o / 2))%N by lia.
+        repeat split; try assumption; congruence.
+    - exfalso. destruct (Hc r eq_refl) as [C1 C2].
+      destruct (N.even o).
+      + replace (2 * (o / 2))%N with o in * by lia. congruence.
+      + replace (2 * (o / 2) + 1)%N with o in * by lia. congruence.
+  Qed.
+
+  (** * L5: positions and coordinates *)
+
+  Lemma pos_gpos rows r o : pos rows r o = gpos (N.of_nat rows) (N.of_nat r) o.
+  Proof. reflexivity. Qed.
+
+  Lemma find_pos_coord_gen rows (lay : list (node H)) r o :
+    (forall x, In x lay ->
+       nrow x <= rows /\ (noff x < 2 ^ (N.of_nat rows - N.of_nat (nrow x)))%N) ->
+    r <= rows -> (o < 2 ^ (N.of_nat rows - N.of_nat r))%N ->
+    find_pos rows lay (pos rows r o) = find_coord lay r o.
+  Proof.
+    intros Hval Hr Ho. induction lay as [|y lay IH]; [reflexivity|].
+    cbn [find_pos find_coord]. destruct (Hval y (or_introl eq_refl)) as [Hyr Hyo].
+    assert (IH' := IH (fun x Hx => Hval x (or_intror Hx))). clear IH.
+    unfold npos. rewrite !pos_gpos.
+    destruct (N.eqb_spec (gpos (N.of_nat rows) (N.of_nat (nrow y)) (noff y))
+                         (gpos (N.of_nat rows) (N.of_nat r) o)) as [E|E].
+    - apply gpos_inj in E as [Er Eo]; try lia.
+      apply Nat2N.inj in Er. rewrite Er, Eo, Nat.eqb_refl, N.eqb_refl. reflexivity.
+    - destruct (Nat.eqb_spec (nrow y) r) as [Er|Er]; cbn [andb];
+        [destruct (N.eqb_spec (noff y) o) as [Eo|Eo]|]; try exact IH'.
+      exfalso. apply E. rewrite Er, Eo. reflexivity.
+  Qed.
+
+  Theorem find_pos_coord s r o :
+    r <= rows_of (num_leaves s) ->
+    (o < 2 ^ (N.of_nat (rows_of (num_leaves s)) - N.of_nat r))%N ->
+    find_pos (rows_of (num_leaves s)) (layout HO s) (pos (rows_of (num_leaves s)) r o)
+    = find_coord (layout HO s) r o.
+  Proof.
+    intros Hr Ho. apply find_pos_coord_gen; [|exact Hr|exact Ho].
+    intros x Hx. apply layout_coords_rows_of, Hx.
+  Qed.
+
+  Lemma find_pos_some rows (lay : list (node H)) p x :
+    find_pos rows lay p = Some x -> In x lay /\ npos rows x = p.
+  Proof.
+    induction lay as [|y lay IH]; cbn [find_pos]; [discriminate|].
+    destruct (N.eqb_spec (npos rows y) p) as [E|E].
+    - intros Ex. injection Ex as <-. split; [left; reflexivity|exact E].
+    - intros Ex. destruct (IH Ex) as [Hin Hp]. split; [right; exact Hin|exact Hp].
+  Qed.
+
+  (** a position that is the position of no node holds nothing *)
+  Theorem find_pos_none rows (lay : list (node H)) p :
+    find_pos rows lay p = None <-> (forall x, In x lay -> npos rows x <> p).
+  Proof.
+    induction lay as [|y lay IH]; cbn [find_pos].
+    - split; [intros _ x []|reflexivity].
+    - destruct (N.eqb_spec (npos rows y) p) as [E|E].
+      + split; [discriminate|]. intros Hall. exfalso. exact (Hall y (or_introl eq_refl) E).
+      + rewrite IH. split.
+        * intros Hall x [<-|Hin]; [exact E|apply Hall, Hin].
+        * intros Hall x Hin. apply Hall. right. exact Hin.
+  Qed.
+
+  (** whatever [find_pos] finds in the layout is the node at its coordinate *)
+  Theorem find_pos_layout s p x :
+    find_pos (rows_of (num_leaves s)) (layout HO s) p = Some x ->
+    tnode s (nrow x) (noff x) = Some x /\ p = pos (rows_of (num_leaves s)) (nrow x) (noff x).
+  Proof.
+    intros Hf. apply find_pos_some in Hf as [Hin Hp]. split; [apply tnode_in, Hin|].
+    symmetry. exact Hp.
+  Qed.
+
+  (** * L6: the leaves of the layout are the live leaves *)
+
+  Lemma filter_flat_map (A B : Type) (f : B -> bool) (g : A -> list B) l :
+    filter f (flat_map g l) = flat_map (fun a => filter f (g a)) l.
+  Proof.
+    induction l as [|a l IH]; [reflexivity|]. cbn [flat_map]. rewrite filter_app, IH. reflexivity.
+  Qed.
+  Lemma map_flat_map' (A B C : Type) (f : B -> C) (g : A -> list B) l :
+    map f (flat_map g l) = flat_map (fun a => map f (g a)) l.
+  Proof.
+    induction l as [|a l IH]; [reflexivity|]. cbn [flat_map]. rewrite map_app, IH. reflexivity.
+  Qed.
+  Lemma flat_map_ext_in (A B : Type) (f g : A -> list B) l :
+    (forall a, In a l -> f a = g a) -> flat_map f l = flat_map g l.
+  Proof.
+    induction l as [|a l IH]; intros Hfg; [reflexivity|]. cbn [flat_map].
+    rewrite (Hfg a (or_introl eq_refl)), IH; [reflexivity|].
+    intros b Hb. apply Hfg. right. exact Hb.
+  Qed.
+
+  Lemma trees_leaves k : forall lo s, length s < 2 ^ S k ->
+    flat_map (fun e : nat * N * option (ctree H) => oleaves (snd e)) (trees HO k lo s) = live s.
+  Proof.
+    induction k as [|k IH]; intros lo s Hlen.
+    - rewrite trees_0. change (2 ^ 1) with 2 in Hlen.
+      destruct s as [|x [|y s]]; cbn [length] in Hlen; [reflexivity| |lia].
+      cbn [length Nat.leb flat_map snd]. rewrite app_nil_r, compress_leaves.
+      change (2 ^ 0) with 1. reflexivity.
+    - rewrite trees_S. pose proof (Nat.pow_succ_r' 2 (S k)) as Hpow. rewrite Hpow in Hlen.
+      remember (2 ^ S k) as sz eqn:Hsz.
+      destruct (Nat.leb_spec sz (length s)) as [Hge|Hlt].
+      + cbn [flat_map snd]. rewrite IH by (rewrite skipn_length; lia).
+        rewrite compress_leaves, <- Hsz, firstn_firstn, Nat.min_id, <- live_app, firstn_skipn.
+        reflexivity.
+      + apply IH. exact Hlt.
+  Qed.
+
+  Theorem layout_leaves s :
+    map (@nhash H) (filter (@nleaf H) (layout HO s)) = live s.
+  Proof.
+    unfold layout. rewrite filter_flat_map, map_flat_map'.
+    rewrite <- (trees_leaves (Nat.log2 (length s)) 0%N s (forest_len s)). fold (forest HO s).
+    apply flat_map_ext_in. intros [[k lo] t] He.
+    apply forest_entry in He as (_ & _ & _ & _ & _ & Ht). cbn [place_entry snd].
+    destruct t as [c|]; [|reflexivity]. symmetry in Ht.
+    destruct (compress_wf _ _ _ Ht) as [_ Hht]. cbn [oleaves].
+    apply place_tree_leaves. exact Hht.
+  Qed.
+
+  Theorem live_leaf_in_layout s h : In (Some h) s ->
+    exists x, In x (layout HO s) /\ nleaf x = true /\ nhash x = h.
+  Proof.
+    intros Hin. apply live_in in Hin. rewrite <- layout_leaves in Hin.
+    apply in_map_iff in Hin as (x & Hh & Hx). apply filter_In in Hx as [Hx Hlf].
+    exists x. auto.
+  Qed.
+
+  (** conversely every leaf node carries a live leaf *)
+  Theorem layout_leaf_live s x : In x (layout HO s) -> nleaf x = true -> In (Some (nhash x)) s.
+  Proof.
+    intros Hin Hlf. apply live_in. rewrite <- layout_leaves. apply in_map, filter_In. auto.
+  Qed.
+
+  Lemma NoDup_map_inj_in (A B : Type) (f : A -> B) l x y :
+    NoDup (map f l) -> In x l -> In y l -> f x = f y -> x = y.
+  Proof.
+    induction l as [|a l IH]; intros Hnd Hx Hy E; [destruct Hx|].
+    cbn [map] in Hnd. inversion Hnd as [|b m Hna Hnd']; subst b m.
+    destruct Hx as [<-|Hx], Hy as [<-|Hy]; [reflexivity| | |exact (IH Hnd' Hx Hy E)].
+    - exfalso. apply Hna. rewrite E. apply in_map, Hy.
+    - exfalso. apply Hna. rewrite <- E. apply in_map, Hx.
+  Qed.
+
+  (** with pairwise distinct live leaves, the leaf node of a hash is unique *)
+  Theorem live_leaf_unique s x y : NoDup (live s) ->
+    In x (layout HO s) -> In y (layout HO s) -> nleaf x = true -> nleaf y = true ->
+    nhash x = nhash y -> x = y.
+  Proof.
+    intros Hnd Hx Hy Lx Ly E. rewrite <- layout_leaves in Hnd.
+    apply (NoDup_map_inj_in _ _ (@nhash H) (filter (@nleaf H) (layout HO s)) x y Hnd);
+      [apply filter_In; auto|apply filter_In; auto|exact E].
+  Qed.
+
+  (** [find_leaf] on the layout (needs a correct [op_eqb]) *)
+  Lemma find_leaf_some (lay : list (node H)) h x : ops_ok HO ->
+    find_leaf HO lay h = Some x -> In x lay /\ nleaf x = true /\ nhash x = h.
+  Proof.
+    intros Hok. induction lay as [|y lay IH]; cbn [find_leaf]; [discriminate|].
+    destruct (nleaf y) eqn:Ly; cbn [andb].
+    - destruct (op_eqb HO (nhash y) h) eqn:Ey.
+      + intros Ex. injection Ex as <-. apply Hok in Ey. auto using in_eq.
+      + intros Ex. destruct (IH Ex) as (Hin & Hl & Hh). auto using in_cons.
+    - intros Ex. destruct (IH Ex) as (Hin & Hl & Hh). auto using in_cons.
+  Qed.
+
+  Lemma find_leaf_ex (lay : list (node H)) h : ops_ok HO ->
+    (exists x, In x lay /\ nleaf x = true /\ nhash x = h) -> exists x, find_leaf HO lay h = Some x.
+  Proof.
+    intros Hok (x & Hin & Hl & Hh). induction lay as [|y lay IH]; [destruct Hin|].
+    cbn [find_leaf]. destruct (nleaf y && op_eqb HO (nhash y) h) eqn:E; [eexists; reflexivity|].
+    destruct Hin as [->|Hin]; [|exact (IH Hin)].
+    exfalso. rewrite Hl in E. cbn [andb] in E.
+    assert (Ht : op_eqb HO (nhash x) h = true) by (apply Hok; exact Hh). congruence.
+  Qed.
+
+  Theorem find_leaf_live s h : ops_ok HO ->
+    In (Some h) s <->
+    exists x, find_leaf HO (layout HO s) h = Some x /\
+              tnode s (nrow x) (noff x) = Some x /\ nleaf x = true /\ nhash x = h.
+  Proof.
+    intros Hok. split.
+    - intros Hin. destruct (find_leaf_ex (layout HO s) h Hok (live_leaf_in_layout s h Hin)) as [x Hx].
+      exists x. split; [exact Hx|]. apply (find_leaf_some _ _ _ Hok) in Hx as (Hi & Hl & Hh).
+      split; [apply tnode_in, Hi|auto].
+    - intros (x & Hx & _). apply (find_leaf_some _ _ _ Hok) in Hx as (Hi & Hl & <-).
+      apply layout_leaf_live; assumption.
+  Qed.
+
+  Theorem thash_some s r o h :
+    thash s r o = Some h <-> exists x, tnode s r o = Some x /\ nhash x = h.
+  Proof.
+    unfold thash. fold (tnode s r o). destruct (tnode s r o) as [x|]; cbn [option_map].
+    - split; [intros E; injection E as <-; exists x; auto|intros (y & E & <-); congruence].
+    - split; [discriminate|intros (y & E & _); discriminate].
+  Qed.
+
+  (** the number of trees is the population count of the leaf count *)
+  Lemma trees_length k : forall lo s, length s < 2 ^ S k ->
+    N.of_nat (length (trees HO k lo s)) = popcount (N.of_nat (length s)).
+  Proof.
+    induction k as [|k IH]; intros lo s Hlen.
+    - change (2 ^ 1) with 2 in Hlen.
+      destruct s as [|x [|y s]]; cbn [length] in Hlen; [reflexivity|reflexivity|lia].
+    - rewrite trees_S. pose proof (Nat.pow_succ_r' 2 (S k)) as Hpow. rewrite Hpow in Hlen.
+      pose proof (p2_nat (S k)) as HpN. remember (2 ^ S k) as sz eqn:Hsz.
+      destruct (Nat.leb_spec sz (length s)) as [Hge|Hlt].
+      + cbn [length]. rewrite Nat2N.inj_succ, IH by (rewrite skipn_length; lia).
+        rewrite skipn_length.
+        replace (N.of_nat (length s)) with (p2 (S k) + N.of_nat (length s - sz))%N by lia.
+        rewrite popcount_pow_add by lia. lia.
+      + apply IH. exact Hlt.
+  Qed.
+
+  Theorem roots_length s : length (roots HO s) = N.to_nat (popcount (N.of_nat (length s))).
+  Proof.
+    unfold roots. rewrite map_length. unfold forest.
+    rewrite <- (trees_length _ 0%N s (forest_len s)). lia.
+  Qed.
+
+  (** * More on the tree of a node *)
+
+  Theorem layout_row_log2 s x : In x (layout HO s) -> nrow x <= Nat.log2 (length s).
+  Proof.
+    intros Hin. pose proof (layout_coords_valid s x Hin) as Hv. fold (p2 (nrow x)) in Hv.
+    pose proof (p2_pos (nrow x)) as Hp. pose proof (p2_nat (nrow x)) as Hn.
+    assert (Hge : (p2 (nrow x) <= (noff x + 1) * p2 (nrow x))%N) by nia.
+    apply Nat.log2_le_pow2; lia.
+  Qed.
+
+  (** a node lies in the tree of row [ntree x], inside its slot range *)
+  Theorem layout_node_tree s x : In x (layout HO s) ->
+    exists lo t, In (ntree x, lo, t) (forest HO s) /\ In x (place_entry HO (ntree x, lo, t)) /\
+      nrow x <= ntree x /\
+      (lo <= noff x * 2 ^ N.of_nat (nrow x))%N /\
+      ((noff x + 1) * 2 ^ N.of_nat (nrow x) <= lo + 2 ^ N.of_nat (ntree x))%N.
+  Proof.
+    intros Hin. destruct (layout_entry s x Hin) as (k & lo & t & He & Hx).
+    assert (Ek : ntree x = k).
+    { cbn [place_entry] in Hx. destruct t as [c|]; [exact (place_tree_ntree _ _ _ _ _ _ Hx)|].
+      destruct Hx as [<-|[]]. reflexivity. }
+    rewrite Ek. exists lo, t. split; [exact He|]. split; [exact Hx|].
+    exact (forest_entry_range s k lo t x He Hx).
+  Qed.
+
+  (** the root of the tree of a node: row [ntree x], offset [noff x / 2^(ntree x - nrow x)] *)
+  Theorem node_root s x : In x (layout HO s) ->
+    exists rt, tnode s (ntree x) (noff x / 2 ^ N.of_nat (ntree x - nrow x)) = Some rt /\
+               nroot rt = true /\ ntree rt = ntree x.
+  Proof.
+    intros Hin. destruct (layout_node_tree s x Hin) as (lo & t & He & _ & Hr & Hlo & Hhi).
+    destruct (root_node s _ lo t He) as (_ & _ & Ediv & rt & Hrt & Hroot & _ & Htr).
+    pose proof (forest_entry _ _ _ _ He) as (_ & _ & E2 & _).
+    rewrite <- p2_S' in Ediv. rewrite Ediv in Hrt.
+    set (q := (2 * (N.of_nat (length s) / p2 (S (ntree x))))%N) in *.
+    exists rt. split; [|auto]. fold (p2 (ntree x - nrow x)).
+    replace (noff x / p2 (ntree x - nrow x))%N with q; [exact Hrt|].
+    fold (p2 (nrow x)) in Hlo, Hhi. fold (p2 (ntree x)) in Hhi.
+    rewrite (p2_split (ntree x) (nrow x) Hr) in E2, Hhi. subst lo.
+    pose proof (p2_pos (nrow x)) as Hp. pose proof (p2_pos (ntree x - nrow x)) as Hp'.
+    rewrite N.mul_assoc in Hlo. apply N.mul_le_mono_pos_r in Hlo; [|exact Hp].
+    assert (Hlt : (noff x * p2 (nrow x) < (q + 1) * p2 (ntree x - nrow x) * p2 (nrow x))%N) by lia.
+    apply N.mul_lt_mono_pos_r in Hlt; [|exact Hp].
+    apply (N.div_unique _ _ q (noff x - q * p2 (ntree x - nrow x))%N); lia.
+  Qed.
+
 End LayoutStruct.
+
+(** [H] is implicit in the interface definitions (as in [Spec.Forest]); the theorems take
+    [H HO] explicitly (as in [Proofs.StumpAdd]). *)
+Arguments tnode {H} HO s r o.
+Arguments thash {H} HO s r o.
+Arguments coord {H} x.
+Arguments nlo {H} x.
+Arguments nhi {H} x.
+Arguments no_children {H} HO s r o.
+Arguments node_case {H} HO s r o x.
+
+(** * Examples: a forest with dead slots and an empty root *)
+From Utreexo Require Import Spec.Term.
+Local Open Scope nat_scope.
+
+Definition ls_ex : slots term :=
+  [Some (Atom 1); None; Some (Atom 3); Some (Atom 4); None; None; Some (Atom 7)].
+
+(** 7 = 0b111 leaves: trees of rows 2, 1, 0 at slots 0, 4, 6; the row-1 tree is empty *)
+Example ls_ex_forest :
+  forest term_ops ls_ex =
+  [(2, 0%N, Some (CNode (Node (Atom 1) (Node (Atom 3) (Atom 4))) (CLeaf (Atom 1))
+                        (CNode (Node (Atom 3) (Atom 4)) (CLeaf (Atom 3)) (CLeaf (Atom 4)))));
+   (1, 4%N, None);
+   (0, 6%N, Some (CLeaf (Atom 7)))].
+Proof. vm_compute. reflexivity. Qed.
+
+(** L2: pairwise distinct coordinates; leaf [Atom 1] moved up to row 1 *)
+Example ls_ex_coords :
+  map (fun x : node term => (nrow x, noff x)) (layout term_ops ls_ex) =
+  [(2, 0%N); (1, 0%N); (1, 1%N); (0, 2%N); (0, 3%N); (1, 2%N); (0, 6%N)].
+Proof. vm_compute. reflexivity. Qed.
+Example ls_ex_nodup :
+  NoDup (map (fun x : node term => (nrow x, noff x)) (layout term_ops ls_ex)).
+Proof. exact (layout_coords_nodup term term_ops ls_ex). Qed.
+
+(** L1 on every node: [(o+1) * 2^r <= 7] *)
+Example ls_ex_valid :
+  forallb (fun x : node term => ((noff x + 1) * 2 ^ N.of_nat (nrow x) <=? 7)%N)
+          (layout term_ops ls_ex) = true.
+Proof. vm_compute. reflexivity. Qed.
+
+(** L3: the roots; row 1 (bit 1 of 7) is the empty root at offset [4 / 2 = 2 * (7 / 4)] *)
+Example ls_ex_root1 :
+  In (1, 4%N, None) (forest term_ops ls_ex) /\
+  N.testbit 7 1 = true /\ (4 = 7 / 2 ^ (1 + 1) * 2 ^ (1 + 1))%N /\
+  tnode term_ops ls_ex 1 2 =
+    Some (mkNode 1 2%N Zero false true 1) /\
+  nth_error (roots term_ops ls_ex) (N.to_nat (popcount (N.shiftr 7 (1 + 1)))) = Some Zero.
+Proof. vm_compute. repeat split; auto. Qed.
+Example ls_ex_root1_thm :
+  exists x, tnode term_ops ls_ex 1 (4 / 2 ^ N.of_nat 1) = Some x /\ nroot x = true /\
+            nhash x = root_hash term_ops None /\ ntree x = 1.
+Proof.
+  assert (Hin : In (1, 4%N, @None (ctree term)) (forest term_ops ls_ex))
+    by (vm_compute; auto).
+  exact (proj2 (proj2 (proj2 (root_node term term_ops ls_ex 1 4%N None Hin)))).
+Qed.
+Example ls_ex_roots_nth :
+  nth_error (roots term_ops ls_ex)
+    (N.to_nat (popcount (N.shiftr (N.of_nat (length ls_ex)) (N.of_nat 0 + 1)))) =
+  Some (root_hash term_ops (Some (CLeaf (Atom 7)))).
+Proof.
+  apply (roots_nth term term_ops ls_ex 0 6%N). vm_compute. auto.
+Qed.
+
+(** L4: the three cases.  Inner: the root of the row-2 tree *)
+Example ls_ex_inner :
+  thash term_ops ls_ex 2 0 = Some (Node (Atom 1) (Node (Atom 3) (Atom 4))) /\
+  thash term_ops ls_ex 1 0 = Some (Atom 1) /\
+  thash term_ops ls_ex 1 1 = Some (Node (Atom 3) (Atom 4)).
+Proof. vm_compute. auto. Qed.
+(** Leaf: [Atom 1] sits at (1, 0); its child coordinates hold no node *)
+Example ls_ex_leaf :
+  tnode term_ops ls_ex 1 0 = Some (mkNode 1 0%N (Atom 1) true false 2) /\
+  tnode term_ops ls_ex 0 0 = None /\ tnode term_ops ls_ex 0 1 = None.
+Proof. vm_compute. auto. Qed.
+Example ls_ex_leaf_thm :
+  tnode term_ops ls_ex 0 (2 * 0) = None /\ tnode term_ops ls_ex 0 (2 * 0 + 1) = None.
+Proof.
+  apply (leaf_children_none term term_ops ls_ex 0 0%N (mkNode 1 0%N (Atom 1) true false 2));
+    reflexivity.
+Qed.
+(** Empty root: (1, 2) has hash [Zero], no children, and slots 4..5 are dead *)
+Example ls_ex_empty :
+  tnode term_ops ls_ex 1 2 = Some (mkNode 1 2%N Zero false true 1) /\
+  tnode term_ops ls_ex 0 4 = None /\ tnode term_ops ls_ex 0 5 = None /\
+  live (firstn (2 ^ 1) (skipn (N.to_nat (2 * 2 ^ N.of_nat 1)) ls_ex)) = [].
+Proof. vm_compute. auto. Qed.
+Example ls_ex_node_case :
+  node_case term_ops ls_ex 2 0 (mkNode 2 0%N (Node (Atom 1) (Node (Atom 3) (Atom 4))) false true 2).
+Proof. apply node_cases. reflexivity. Qed.
+(** parent and sibling of the leaf [Atom 3] at (0, 2) *)
+Example ls_ex_sibling :
+  tnode term_ops ls_ex 0 2 = Some (mkNode 0 2%N (Atom 3) true false 2) /\
+  thash term_ops ls_ex 0 (N.lxor 2 1) = Some (Atom 4) /\
+  thash term_ops ls_ex 1 (2 / 2) = Some (Node (Atom 3) (Atom 4)).
+Proof. vm_compute. auto. Qed.
+
+(** L5: positions ([rows = 3]) agree with coordinates on every valid coordinate *)
+Example ls_ex_find_pos :
+  rows_of (num_leaves ls_ex) = 3 /\
+  forallb (fun r =>
+    forallb (fun o =>
+      match find_pos 3 (layout term_ops ls_ex) (pos 3 r (N.of_nat o)),
+            find_coord (layout term_ops ls_ex) r (N.of_nat o) with
+      | Some a, Some b => Nat.eqb (nrow a) (nrow b) && (noff a =? noff b)%N
+      | None, None => true
+      | _, _ => false
+      end) (seq 0 (2 ^ (3 - r)))) (seq 0 4) = true.
+Proof. vm_compute. auto. Qed.
+Example ls_ex_find_pos_thm :
+  find_pos 3 (layout term_ops ls_ex) (pos 3 1 2) = find_coord (layout term_ops ls_ex) 1 2.
+Proof. apply (find_pos_coord term term_ops ls_ex 1 2%N); vm_compute; [lia|reflexivity]. Qed.
+(** position 14 (the top of the 3-row frame) holds no node *)
+Example ls_ex_find_pos_none : find_pos 3 (layout term_ops ls_ex) 14 = None.
+Proof. vm_compute. reflexivity. Qed.
+
+(** L6: the leaf nodes are the live leaves *)
+Example ls_ex_leaves :
+  map (@nhash term) (filter (@nleaf term) (layout term_ops ls_ex)) =
+  [Atom 1; Atom 3; Atom 4; Atom 7] /\ live ls_ex = [Atom 1; Atom 3; Atom 4; Atom 7].
+Proof. vm_compute. auto. Qed.
+
+Print Assumptions layout_coords_valid.
+Print Assumptions layout_coords_nodup.
+Print Assumptions root_node.
+Print Assumptions root_node_conv.
+Print Assumptions roots_nth.
+Print Assumptions node_cases.
+Print Assumptions node_sibling.
+Print Assumptions find_pos_coord.
+Print Assumptions layout_leaves.
+Print Assumptions find_leaf_live.
+Print Assumptions node_root.
